@@ -9,7 +9,12 @@ Driver families (all judged by TLC through ScrollableTrace):
     at the wrapped widget (render, keypress, mouse_event);
   * seeded random histories over probe / fixed / Text / wrapped Text / multi-line Edit / Pile, with and without a bar,
     eager (render after every step) and lazy (several keys / positions between renderings);
-  * ListBox under ScrollBar: walker changes and items that change their height in place, the model's own content height.
+  * ListBox under ScrollBar: walker changes and items that change their height in place, the model's own content height;
+  * ListBox walks: short lists of items of several rows (up to taller than the view) walked to the end and back with line / page keys,
+    wheel events; the row on the top line of the view is read off the canvas and TLC computes the position from the item heights
+    (ScrollableListOps!RowsAbove): get_scrollpos / get_first_visible_pos and the thumb are judged against that position;
+  * held canvases: every canvas of a history stays referenced (urwid's canvas cache may answer), sizes / focus flags A, B, A where B's
+    rendering clamps the position (or does not); the model counterpart is Frames = "held" / "lazy" in Scrollable.tla.
 """
 from __future__ import annotations
 
@@ -199,18 +204,21 @@ class Subject:
         elif k == "pile":
             self.head.set_text(self._lines(max(1, min(n, 14))))
 
-    def observe(self, body, cw):
-        """(total rows of the wrapped widget's own full rendering, row numbers shown)."""
+    def observe(self, body, cw, focus=True):
+        """(total rows of the wrapped widget's own full rendering - same focus flag as the view -, row numbers shown)."""
         if self.kind in ("probe", "fixed", "text"):
             total = self.widget.total if self.kind != "text" else self.total
             return total, [ord(b[0]) - 65 if b and "A" <= b[0] <= "Z" else -1 for b in body]
-        full = [ln.decode("utf-8").rstrip() for ln in type(self.widget).render(self.widget, (cw,), True).text]
+        full = [ln.decode("utf-8").rstrip() for ln in type(self.widget).render(self.widget, (cw,), focus).text]
         return len(full), match_rows(body, full)
 
 
-def run_history(kind, total, w, h, ops, bar=None, eat=(), sweep=False, lazy=False, cseed=0):
+def run_history(kind, total, w, h, ops, bar=None, eat=(), sweep=False, lazy=False, cseed=0, held=False):
     """ops: ('key', k) | ('setpos', n) | ('h', n) | ('w', n) | ('total', n) | ('wheel', 4|5) | ('click', col, row) | ('render',)
-    lazy: keys and positions are not followed by a rendering of their own (several may be pending at the next one)."""
+         | ('focus', 0|1) (the focus flag of the renderings that follow)
+    lazy: keys and positions are not followed by a rendering of their own (several may be pending at the next one).
+    held: every canvas rendered in the history stays referenced (as a screen or a parent canvas holds it), so urwid's canvas
+          cache may answer a later rendering of the same (size, focus)."""
     import urwid
 
     urwid.set_encoding("utf-8")
@@ -229,14 +237,19 @@ def run_history(kind, total, w, h, ops, bar=None, eat=(), sweep=False, lazy=Fals
     exact = 1 if kind in EXACT_KINDS else 0
     common = {"hasbar": 1 if bar else 0, "barw": barw, "left": 1 if side == "left" else 0}
     ev = []
-    state = {"w": w, "h": h, "dirty": True}
+    keep = []
+    state = {"w": w, "h": h, "dirty": True, "focus": True}
 
     def render():
         e = {"t": "render", "exc": "", "total": 0, "totalfull": 0, "h": state["h"], "w": state["w"], **common, "bar": 0, "top": 0, "thumb": 0,
-             "bottom": 0, "rows": [], "p": 0, "sweep": 1 if sweep else 0, "judge_top": 1, "exact": exact, "calls": [], "inner": []}
+             "bottom": 0, "rows": [], "p": 0, "sweep": 1 if sweep else 0, "judge_top": 1, "exact": exact, "calls": [], "inner": [],
+             "focus": 1 if state["focus"] else 0, "cached": 0}
         del log[:]
         try:
-            canv = top.render((state["w"], state["h"]), True)
+            canv = top.render((state["w"], state["h"]), state["focus"])
+            if held:
+                keep.append(canv)
+            e["cached"] = 0 if any(c["fn"] == "render" for c in log) else 1       # the outermost widget's render was not run
             if canv.rows() != state["h"] or canv.cols() != state["w"]:
                 e["exc"] = f"size{canv.cols()}x{canv.rows()}"
             else:
@@ -244,8 +257,8 @@ def run_history(kind, total, w, h, ops, bar=None, eat=(), sweep=False, lazy=Fals
                 e["bar"] = 1 if drawn else 0
                 e["top"], e["thumb"], e["bottom"] = parts
                 e["calls"], e["inner"], _ = _calls(log, "render")
-                e["total"], e["rows"] = subj.observe(body, state["w"] - barw if drawn else state["w"])
-                e["totalfull"] = subj.observe([], state["w"])[0] if drawn else e["total"]
+                e["total"], e["rows"] = subj.observe(body, state["w"] - barw if drawn else state["w"], state["focus"])
+                e["totalfull"] = subj.observe([], state["w"], state["focus"])[0] if drawn else e["total"]
                 e["p"] = sc.get_scrollpos()
         except Exception as ex:  # noqa: BLE001
             e["exc"] = type(ex).__name__
@@ -308,16 +321,23 @@ def run_history(kind, total, w, h, ops, bar=None, eat=(), sweep=False, lazy=Fals
             state["w"] = op[1]
         elif op[0] == "total":
             subj.set_total(op[1])
+        elif op[0] == "focus":
+            state["focus"] = bool(op[1])
         last = render()
+    del keep[:]
     return {"kind": kind, "total": total, "w": w, "h": h, "ops": [list(o) for o in ops], "bar": list(bar) if bar else [], "eat": sorted(eat),
-            "lazy": 1 if lazy else 0, "cseed": cseed, "ev": ev}
+            "lazy": 1 if lazy else 0, "cseed": cseed, "held": 1 if held else 0, "ev": ev}
 
 
-def random_ops(rng, n, maxtotal, maxh, mouse):
+def random_ops(rng, n, maxtotal, maxh, mouse, focus=False):
     ops = []
     for _ in range(n):
         r = rng.random()
-        if r < 0.42:
+        if focus and r < 0.06:
+            ops.append(("focus", rng.randint(0, 1)))
+        elif focus and r < 0.2:
+            ops.append(("h", rng.randint(1, maxh)))      # held canvases: more resizes, so sizes come back
+        elif r < 0.42:
             ops.append(("key", rng.choice(KEYS + ["a", "left", "right"])))
         elif r < 0.56:
             ops.append(("setpos", rng.randint(-maxtotal - 3, maxtotal + 3)))
@@ -337,10 +357,32 @@ def random_ops(rng, n, maxtotal, maxh, mouse):
 # ---------------------------------------------------------------------------------------------------------------------
 # ListBox under ScrollBar: the content is a list of items <<wrap, n>>; the model (ScrollableTrace!SumRows) owns its height
 # ---------------------------------------------------------------------------------------------------------------------
-def listbox_history(items, w, h, ops, bar=(1, "right")):
+DIGITS = "0123456789abcdefghijklmnopqrstuvwxyz"
+
+
+def first_row(urwid, walker, body, cw):
+    """Which row of the list is on the top line of the view: [item number (1-based), row inside that item]; [0, 0] when the list is
+    empty or several runs of rows look the same, [-1, -1] when the lines shown are not a run of consecutive rows of the items
+    (each item rendered on its own at the width the ListBox was given) followed by blank lines."""
+    flat = []
+    for i, wd in enumerate(walker):
+        for r, ln in enumerate(wd.render((cw,), False).text):
+            flat.append((i + 1, r, ln.decode("utf-8").rstrip()))
+    if not flat:
+        return [0, 0]
+    view = [b.rstrip() for b in body]
+    cands = [g for g in range(len(flat))
+             if all((flat[g + k][2] if g + k < len(flat) else "") == view[k] for k in range(len(view)))]
+    if len(cands) == 1:
+        return [flat[cands[0]][0], flat[cands[0]][1]]
+    return [0, 0] if cands else [-1, -1]
+
+
+def listbox_history(items, w, h, ops, bar=(1, "right"), held=False):
     """items: [typ, n]: typ 0 = Text of n lines, 1 = Text of n cells wrapped anywhere, 2 = multi-line Edit of n lines.
     ops: ('key', k) | ('set', idx, n) (height changed IN PLACE, the walker is not told) | ('append', typ, n) | ('pop', idx)
-         | ('h', n) | ('w', n) | ('wheel', b) | ('click', col, row) | ('render',)"""
+         | ('h', n) | ('w', n) | ('wheel', b) | ('click', col, row) | ('render',)
+    held: every canvas rendered in the history stays referenced."""
     import urwid
 
     urwid.set_encoding("utf-8")
@@ -349,7 +391,7 @@ def listbox_history(items, w, h, ops, bar=(1, "right")):
     def text_for(typ, n, i):
         if typ == 1:
             return "".join(CHARS[(i * 5 + j) % len(CHARS)] for j in range(n))
-        return "\n".join(f"{_label(i)}{j % 10}" for j in range(max(1, n)))
+        return "\n".join(f"{_label(i)}{DIGITS[j % len(DIGITS)]}" for j in range(max(1, n)))
 
     def build(typ, n, i):
         if typ == 1:
@@ -366,6 +408,7 @@ def listbox_history(items, w, h, ops, bar=(1, "right")):
     sb = urwid.ScrollBar(lb, thumb_char=THUMB, trough_char=TROUGH, side=side, width=barw)
     common = {"hasbar": 1, "barw": barw, "left": 1 if side == "left" else 0}
     ev = []
+    keep = []
     state = {"w": w, "h": h}
 
     def model_items():
@@ -381,20 +424,26 @@ def listbox_history(items, w, h, ops, bar=(1, "right")):
 
     def render(after="init"):
         e = {"t": "lbrender", "exc": "", "after": after, "items": model_items(), "w": state["w"], "h": state["h"], **common, "bar": 0, "top": 0, "thumb": 0,
-             "bottom": 0, "calls": [], "cw": state["w"], "p": 0, "rmax": 0}
+             "bottom": 0, "calls": [], "cw": state["w"], "p": 0, "rmax": 0, "fvp": 0, "first": [0, 0], "cached": 0, "fitem": 0}
         del log[:]
         try:
             canv = sb.render((state["w"], state["h"]), True)
+            if held:
+                keep.append(canv)
+            e["cached"] = 0 if any(c["fn"] == "render" for c in log) else 1
             if canv.rows() != state["h"] or canv.cols() != state["w"]:
                 e["exc"] = f"size{canv.cols()}x{canv.rows()}"
             else:
-                _body, drawn, parts = split_bar(canv, state["w"], barw, side)
+                body, drawn, parts = split_bar(canv, state["w"], barw, side)
                 e["bar"] = 1 if drawn else 0
                 e["top"], e["thumb"], e["bottom"] = parts
                 e["calls"], _, _ = _calls(log, "render")
                 e["cw"] = state["w"] - barw if drawn else state["w"]
                 e["p"] = lb.get_scrollpos((e["cw"], state["h"]), True)
                 e["rmax"] = lb.rows_max((e["cw"], state["h"]), True)
+                e["fvp"] = lb.get_first_visible_pos((e["cw"], state["h"]), True)
+                e["first"] = first_row(urwid, walker, body, e["cw"])
+                e["fitem"] = (walker.focus + 1) if len(walker) and walker.focus is not None else 0      # counted for vacuity only
         except Exception as ex:  # noqa: BLE001
             e["exc"] = type(ex).__name__
         ev.append(e)
@@ -440,11 +489,12 @@ def listbox_history(items, w, h, ops, bar=(1, "right")):
         elif op[0] == "w":
             state["w"] = op[1]
         render(op[0])
+    del keep[:]
     return {"kind": "listbox", "total": 0, "items": [list(i) for i in items], "w": w, "h": h, "ops": [list(o) for o in ops], "bar": list(bar),
-            "eat": [], "lazy": 0, "cseed": 0, "ev": ev}
+            "eat": [], "lazy": 0, "cseed": 0, "held": 1 if held else 0, "ev": ev}
 
 
-def random_lb(rng, quick):
+def random_lb(rng, quick, held=False):
     h = rng.randint(1, 6)
     w = rng.randint(6, 10)       # at least 3 columns beside the widest bar: the two-cell lines (plus the Edit cursor) never wrap
     relative = rng.random() < 0.2
@@ -473,13 +523,78 @@ def random_lb(rng, quick):
             ops.append(("wheel", rng.choice([4, 5])) if rng.random() < 0.5 else ("click", rng.randint(0, 3), rng.randint(0, h - 1)))
         else:
             ops.append(("render",))
-    return listbox_history(items, w, h, ops, bar=rng.choice([(1, "right"), (1, "right"), (2, "left"), (3, "right")]))
+    return listbox_history(items, w, h, ops, bar=rng.choice([(1, "right"), (1, "right"), (2, "left"), (3, "right")]), held=held)
 
 
-MC_CFG = """CONSTANTS MaxTotal = {t} MaxH = {h} Depth = {d} W = 6 Sticky = {s}
+def lb_scroll_ops(rng, n_rows, h, quick):
+    """Key histories that walk a list: runs of one key, there and back again."""
+    if rng is None:      # the plain walk: to the end line by line, back line by line, then by pages
+        return [("key", "down")] * (n_rows + 1) + [("key", "up")] * (n_rows + 1) + [("key", "page down")] * 3 + [("key", "page up")] * 3
+    ops = []
+    for _ in range(rng.randint(2, 5 if quick else 8)):
+        r = rng.random()
+        if r < 0.8:
+            k = rng.choice(["down", "down", "up", "up", "page down", "page up", "home", "end"])
+            ops += [("key", k)] * rng.randint(1, 1 if k in ("home", "end") else max(2, min(n_rows, 7)))
+        elif r < 0.9:
+            ops += [("wheel", rng.choice([4, 5]))] * rng.randint(1, 3)
+        elif r < 0.95:
+            ops.append(("h", rng.randint(1, 6)))
+        else:
+            ops.append(("click", rng.randint(0, 3), rng.randint(0, h - 1)))
+    return ops
+
+
+def random_lb_scroll(rng, quick):
+    """A short list (rows are counted, not items) of items of one to h + 3 rows, walked with keys."""
+    h = rng.randint(1, 6)
+    w = rng.randint(6, 10)
+    items = []
+    for _ in range(rng.randint(1, min(3 * h, 6))):
+        typ = rng.choice([0, 0, 0, 1, 2])
+        rows = rng.choice([1, 2, 2, 3, 3, 4, h + 1, h + 3])
+        items.append([typ, rows * 3 - rng.randint(0, 2) if typ == 1 else rows])     # wrapped: that many cells (rows at 3 columns; fewer when wider)
+    n_rows = sum(max(1, n) for _t, n in items)
+    return listbox_history(items, w, h, lb_scroll_ops(rng, n_rows, h, quick), bar=rng.choice([(1, "right"), (1, "right"), (2, "left"), (3, "right")]),
+                           held=rng.random() < 0.3)
+
+
+def held_histories(quick):
+    """A view rendered at size (or focus) A, then at B, then at A again while every canvas stays referenced: B shows fewer /
+    more rows or columns, so the position is clamped by B's rendering without any key - or is not, and the frame held for A is
+    still good."""
+    out = []
+    starts = [[("setpos", -1)], [("key", "end")], [("setpos", 50)], [("key", "page down"), ("key", "page down")], [("setpos", 2)], []]
+    kinds = ("probe", "text", "fixed", "wtext", "edit") if quick else ("probe", "text", "fixed", "wtext", "edit", "pile")
+    n = 0
+    for kind in kinds:
+        for total in (4, 7, 12) if quick else (3, 4, 7, 9, 12):
+            for ha in (1, 2, 4) if quick else (1, 2, 3, 4):
+                for hb in (ha + 1, ha + 3, total - 1, total + 2):
+                    if hb <= ha:
+                        continue
+                    for start in starts:
+                        n += 1
+                        if quick and n % 3:
+                            continue
+                        bar = (None, (1, "right"), (2, "left"))[n % 3 if not quick else (n // 3) % 3]
+                        tail = [[], [("key", "up")], [("h", hb), ("h", ha)], [("wheel", 4)], [("key", "down"), ("h", hb)]][n % 5]
+                        t = total * 3 if kind == "wtext" else total
+                        out.append(run_history(kind, t, 7, ha, [*start, ("h", hb), ("h", ha), *tail], bar=bar, held=True, cseed=n))
+                        if n % 4 == 0:     # the same with the focus flag as the other key of the cache
+                            out.append(run_history(kind, t, 7, ha, [("focus", 0), *start, ("focus", 1), ("h", hb), ("focus", 0), ("h", ha), *tail],
+                                                   bar=bar, held=True, cseed=n))
+                        if n % 4 == 1:     # ... and with the width: wrapped content has more rows in a narrower view
+                            out.append(run_history(kind, t, 8, ha, [*start, ("w", 5), ("w", 8), ("h", hb), ("w", 5), ("h", ha), ("w", 8), *tail],
+                                                   bar=bar, held=True, cseed=n))
+    return out
+
+
+MC_CFG = """CONSTANTS MaxTotal = {t} MaxH = {h} Depth = {d} W = 6 Sticky = {s} Frames = "{f}"
 SPECIFICATION Spec
 INVARIANT AfterRender
 INVARIANT ClampOnly
+INVARIANT HeldFramesFresh
 INVARIANT BarState
 INVARIANT DeliveredWidth
 INVARIANT OrdersAgreeInRange
@@ -491,39 +606,72 @@ CHECK_DEADLOCK FALSE
 SOFT = "mouse_position_relative_to_wrapped_widget"   # beyond the sentences of C20: DIVERGENCE, and the rest of the history is still judged
 
 
+# clause -> trace flag that switches it off for a second pass, so that the rest of the history is still judged: the soft clause, and
+# the clause of a known finding (findings/C20.json) where TLC's rejection matched its signature
+SECOND_PASS = {SOFT: "nopos", "child_gets_width_minus_bar.keypress": "nocsize", "child_gets_width_minus_bar.mouse_event": "nocsize",
+               "thumb_never_moves_up_when_position_increases": "nofollow"}
+
+
 def _validate(chk, name, traces, **kw):
     for tr in traces:
         tr.setdefault("nopos", 0)
+        tr.setdefault("nocsize", 0)
+        tr.setdefault("nofollow", 0)
     res = tlc.validate("ScrollableTrace", traces, **kw)
     chk.add_tv(name, res)
-    again = sorted({ti for ti, _l, why in res.rejects if why == SOFT})
-    _handle(chk, traces, res)
-    if again:
-        sub = [dict(traces[ti], nopos=1) for ti in again]
-        res2 = tlc.validate("ScrollableTrace", sub, **kw)
-        chk.add_tv(name + "_without_mouse_position", res2)
-        _handle(chk, sub, res2)
+    todo = traces
+    for rnd in range(4):
+        again = {}
+        for ti, verdict in _handle(chk, todo, res):
+            again.setdefault(ti, set()).add(verdict)
+        if not again or rnd == 3:     # three flags: at most three further passes
+            break
+        todo = [dict(todo[ti], **{flag: 1 for flag in flags}) for ti, flags in sorted(again.items())]
+        res = tlc.validate("ScrollableTrace", todo, **kw)
+        chk.add_tv(f"{name}_pass{rnd + 2}_" + "_".join(sorted({f for fl in again.values() for f in fl})), res)
+
+
+def _lb_cached_in_window(evs):
+    """Signature only: among the renderings of the same list content in the same view as the last one (the renderings TLC compares
+    the thumb with), was one answered by the canvas cache?"""
+    last = evs[-1]
+    cfg = (last["items"], last["cw"], last["h"])
+    for x in reversed(evs):
+        if x["t"] != "lbrender":
+            continue
+        if (x["items"], x["cw"], x["h"]) != cfg:
+            break
+        if x.get("cached"):
+            return 1
+    return 0
 
 
 def _handle(chk, traces, res):
+    """Report TLC's rejections; returns (trace index, flag) for the histories to be judged again without one clause."""
+    again = []
     for ti, l, why in res.rejects:
         tr = traces[ti]
         e = tr["ev"][l - 1]
         if why == SOFT:
             chk.divergence(SOFT, {"kind": tr["kind"], "bar": tr["bar"], "w": tr["w"], "h": tr["h"], "observed": {k: e[k] for k in ("col", "row", "boxpos", "innerpos") if k in e}})
+            again.append((ti, SECOND_PASS[SOFT]))
             continue
         isr = e["t"] in ("render", "lbrender")
         onscreen = [x for x in tr["ev"][:l - 1] if x["t"] in ("render", "lbrender")]
         sig = {"side": (tr["bar"][1] if tr["bar"] else ""), "bar_on_screen": onscreen[-1]["bar"] if onscreen else 0,
+               "frame_from_cache": onscreen[-1].get("cached", 0) if onscreen and not isr else (e.get("cached", 0) if isr else 0),
+               "lb_cached_frame_same_content": _lb_cached_in_window(tr["ev"][:l]) if e["t"] == "lbrender" else 0,
                "kind": tr["kind"], "event": e["t"], "exc": e.get("exc", ""), "h": e.get("h", 0), "bar": e.get("bar", 0),
                "fits": int(e.get("total", 0) <= e.get("h", 0)) if e["t"] == "render" else -1, "hasbar": e.get("hasbar", 0) if isr else -1}
-        rp = {k: tr[k] for k in ("kind", "total", "w", "h", "bar", "eat", "lazy", "cseed")}
+        rp = {k: tr[k] for k in ("kind", "total", "w", "h", "bar", "eat", "lazy", "cseed", "held")}
         rp["ops"] = tr["ops"]       # the whole history (events do not map one-to-one to ops); the verdict names the event
         if tr["kind"] == "listbox":
             rp["items"] = tr["items"]
         rp["observed"] = e
         rp["event_index"] = l
-        chk.reject(f"C20.{why}", sig, rp)
+        if chk.reject(f"C20.{why}", sig, rp) == "known" and why in SECOND_PASS:
+            again.append((ti, SECOND_PASS[why]))
+    return again
 
 
 def _vacuity_counts(traces):
@@ -539,9 +687,46 @@ def _vacuity_counts(traces):
         quiet = True
         nren = 0
         latent = False        # a scroll key reached the Scrollable while the content fitted
+        frames = {}           # held histories: (w, h, focus, total) -> position of the last rendering of that view since the last key / position
+        lastkey = ""
         for e in t["ev"]:
             k = f"{t['kind']}.{e['t']}" + (".bar" if e.get("bar") else "")
             bump(k)
+            if t.get("held") and e["t"] in ("render", "lbrender") and not e["exc"]:
+                bump("held.render")
+                if e["cached"]:
+                    bump("held.frame_answered_by_cache")
+            if t.get("held") and e["t"] == "render" and not e["exc"]:
+                key = (e["w"], e["h"], e["focus"], e["total"])
+                if key in frames and frames[key] != e["p"]:
+                    bump("held.same_view_again_after_rendering_moved_position")
+                    if e["bar"]:
+                        bump("held.same_view_again_after_rendering_moved_position.bar")
+                if len({kk[2] for kk in frames} | {e["focus"]}) > 1:
+                    bump("held.both_focus_states")
+                frames[key] = e["p"]
+            elif e["t"] in ("key", "mouse", "consumed", "setpos"):
+                frames = {}
+            if e["t"] == "lbrender" and not e["exc"]:
+                if e["first"][0] > 0:
+                    bump("listbox.top_row_identified")
+                    if e["first"][1] > 0:
+                        bump("listbox.first_item_cut_at_top")
+                        if e["fitem"] == e["first"][0]:
+                            bump("listbox.first_item_cut_at_top.is_focus")
+                            if lastkey in ("up", "page up"):
+                                bump("listbox.first_item_cut_at_top.is_focus.after_up")
+                        if len(e["items"]) > 3 * e["h"]:
+                            bump("listbox.first_item_cut_at_top.relative")
+                    if lastr is not None and lastr.get("t") == "lbrender" and e["bar"] and lastr["bar"] and len(e["items"]) <= 3 * e["h"] \
+                            and (e["items"], e["cw"], e["h"]) == (lastr["items"], lastr["cw"], lastr["h"]) and e["first"] != lastr["first"]:
+                        bump("listbox.thumb_followed_to_another_position")
+                elif e["items"]:
+                    bump("listbox.top_row_not_identified")
+                if t.get("held") and e["cached"] and lastr is not None and lastr.get("t") == "lbrender" and lastr["items"] != e["items"]:
+                    bump("listbox.held.cached_frame_after_inplace_change")
+            if e["t"] == "key":
+                lastkey = e["key"]
             if e["t"] == "render":
                 if e.get("p", 0) > 0:
                     nontriv.add((t["kind"], e["total"], e["h"], e["p"], e.get("bar", 0)))
@@ -631,8 +816,10 @@ def generate(chk, quick):
         bar = [None, (1, "right"), (2, "left"), (1, "left")][(i // len(kinds)) % 4]
         eat = rng.choice([(), (), ("down", "page down"), ("up", "wheel"), ("home", "end", "wheel")]) if kind == "probe" else ()
         lazy = rng.random() < 0.3
+        held = (i // (4 * len(kinds))) % 2 == 1
         traces.append(run_history(kind, rng.randint(0, 12), rng.randint(4, 9), rng.randint(1, 6),
-                                  random_ops(rng, rng.randint(3, 12), 12, 6, mouse=True), bar=bar, eat=eat, lazy=lazy, cseed=rng.randint(0, 20)))
+                                  random_ops(rng, rng.randint(3, 12), 12, 6, mouse=True, focus=held), bar=bar, eat=eat, lazy=lazy,
+                                  cseed=rng.randint(0, 20), held=held))
     # ---- ListBox under ScrollBar ----
     # every small list: one item grows / shrinks in place after two renderings, then back
     for h in (2, 4):
@@ -644,7 +831,29 @@ def generate(chk, quick):
                         ops = [("render",), ("render",), ("set", idx, grow), ("render",), ("set", idx, 1), ("key", "down"), ("set", idx, grow)]
                         traces.append(listbox_history(items, 8, h, ops, bar=((1, "right"), (2, "left"))[len(traces) % 2]))
     for i in range(250 if quick else 6000):
-        traces.append(random_lb(rng, quick))
+        traces.append(random_lb(rng, quick, held=i % 3 == 0))
+    # a short list of items of several rows walked with keys: every list of 1..3 items (heights up to view + 2) to the end and back
+    # (the first visible item is cut at the top on the way back, and whenever an item is taller than the view), then random walks
+    for h in (2, 3) if quick else (2, 3, 4, 5):
+        hs = (1, 2, h + 2) if quick else (1, 2, 3, h, h + 2)
+        lists = [[a] for a in hs] + [[a, b] for a in hs for b in hs] + [[a, b, c] for a in hs for b in hs for c in hs]
+        for li, heights in enumerate(lists):
+            if quick and len(heights) == 3 and (li + h) % 3:
+                continue
+            typ = (0, 0, 2, 1)[li % 4]
+            items = [[typ if j == li % len(heights) else 0, (x * 4 - 1) if (typ == 1 and j == li % len(heights)) else x] for j, x in enumerate(heights)]
+            traces.append(listbox_history(items, 5 if typ == 1 else 7, h, lb_scroll_ops(None, sum(heights), h, quick), bar=(1, "right"), held=li % 2 == 1))
+    for i in range(200 if quick else 5000):
+        traces.append(random_lb_scroll(rng, quick))
+    # an item scrolled out above the view changes its height in place while the frames stay referenced: the rows shown stay, the position moves
+    for h in (2, 4) if quick else (2, 3, 4, 5):
+        for downs in (3, 5):
+            for a, b in ((2, 9), (9, 2), (3, 20)):
+                ops = [("key", "down")] * downs + [("set", 0, b), ("render",), ("key", "up"), ("key", "down"), ("set", 0, a), ("render",), ("key", "down")]
+                for held in (True, False):
+                    traces.append(listbox_history([[0, a], [2, 1], [0, h + 3], [0, 2]], 8, h, ops, bar=((1, "right"), (2, "left"))[len(traces) % 2], held=held))
+    # ---- held canvases: size / focus A, B, A ----
+    traces += held_histories(quick)
     return traces
 
 
@@ -656,20 +865,32 @@ def run(chk):
     obligations = [("base", "Init", "IndInv", 0, "NoError"), ("step", "IndInit", "IndInv", 1, "NoError"), ("implies_safe", "IndInit", "Safe", 0, "NoError")]
     if not quick:
         obligations.append(("step_refutes_too_strong", "IndInit", "NeverAtEnd", 1, "Error"))
-    with cf.ThreadPoolExecutor(len(obligations) + 2) as ex:
-        f_mc = ex.submit(tlc.mc, "Scrollable", MC_CFG.format(t=5 if quick else 8, h=4 if quick else 5, d=5 if quick else 6, s="FALSE"),
+    with cf.ThreadPoolExecutor(len(obligations) + 4) as ex:
+        f_mc = ex.submit(tlc.mc, "Scrollable", MC_CFG.format(t=5 if quick else 8, h=4 if quick else 5, d=5 if quick else 6, s="FALSE", f="none"),
                          timeout=2400, workers=4 if quick else 6)
-        f_sticky = ex.submit(tlc.mc, "Scrollable", MC_CFG.format(t=3, h=3, d=4, s="TRUE"), timeout=600, workers=1)
+        f_sticky = ex.submit(tlc.mc, "Scrollable", MC_CFG.format(t=3, h=3, d=4, s="TRUE", f="none"), timeout=600, workers=1)
+        # frames that stay referenced (one per view height): sound invalidation holds, the lazy variant is refuted
+        f_held = ex.submit(tlc.mc, "Scrollable", MC_CFG.format(t=3 if quick else 5, h=3 if quick else 4, d=6 if quick else 7, s="FALSE", f="held"),
+                           timeout=2400, workers=2 if quick else 4)
+        f_lazy = ex.submit(tlc.mc, "Scrollable", MC_CFG.format(t=3, h=2, d=7, s="FALSE", f="lazy"), timeout=600, workers=1)
         futs = [(ob, ex.submit(tlc.apalache, "ScrollableInd", ob[1], ob[2], ob[3], 240)) for ob in obligations]
         traces = generate(chk, quick)
         r = f_mc.result()
         chk.add_mc("MC_Scrollable", r)
         if not r.ok:
             chk.reject("C20.model." + str(r.violated), {"model": "Scrollable"}, {"tlc_trace": r.trace[-5:]})
+        rh = f_held.result()
+        chk.add_mc("MC_Scrollable_held_frames", rh)
+        if not rh.ok:
+            chk.reject("C20.model.held_frames." + str(rh.violated), {"model": "Scrollable", "frames": "held"}, {"tlc_trace": rh.trace[-7:]})
         rs = f_sticky.result()
-        chk.cov["refuted_variants"] = {"Sticky (a key pressed while the content fits stays pending)": str(rs.violated)}
+        rl = f_lazy.result()
+        chk.cov["refuted_variants"] = {"Sticky (a key pressed while the content fits stays pending)": str(rs.violated),
+                                       "Frames = lazy (a rendering that moves the position keeps the frames held for other sizes)": str(rl.violated)}
         if rs.ok or rs.violated != "ClampOnly":
             chk.reject("C20.model.sticky_variant_not_refuted", {"model": "Scrollable", "violated": str(rs.violated)}, {"tlc_trace": rs.trace[-5:]})
+        if rl.ok or rl.violated not in ("HeldFramesFresh", "AfterRender"):
+            chk.reject("C20.model.lazy_frames_variant_not_refuted", {"model": "Scrollable", "violated": str(rl.violated)}, {"tlc_trace": rl.trace[-5:]})
         apa = []
         for ob, f in futs:
             res = f.result()
@@ -686,14 +907,22 @@ def run(chk):
     chk.cov["distinct_nontrivial"] = len(nontriv)
     chk.cov["rule"] = ("histories of keys / set_scrollpos / wheel / clicks / resize / content change on real Scrollable and ScrollBar objects around a "
                        "row-labelled flow probe, a fixed widget, Text (explicit lines and wrapped), a multi-line Edit, a Pile of Text and Edit, and a "
-                       "ListBox whose items change height in place; every (total, h, p) swept for the bar geometry; sizes recorded at the wrapped "
+                       "ListBox whose items change height in place or that is walked line by line / page by page over items of several rows (position "
+                       "computed by TLC from the item heights and the row seen on the top line); histories in which every canvas stays referenced "
+                       "(sizes / focus flags A, B, A); every (total, h, p) swept for the bar geometry; sizes recorded at the wrapped "
                        "widget for render / keypress / mouse_event; non-trivial = distinct (kind, total, h, p>0, bar) rendered")
     chk.cov["exhaustive"] = True
     need = ["probe.consumed", "probe.render.bar", "fixed.render", "text.render.bar", "wtext.render.bar", "edit.render.bar", "pile.render.bar",
             "listbox.lbrender.bar", "listbox.lbrender", "listbox.relative", "listbox.inplace_change.same_size",
             "listbox.inplace_change.bar_appears_or_goes", "quiet_render.fit_to_overflow.after_key_while_fitting", "lazy_render",
             "sb.keypress.nobar", "sb.keypress.bar", "sb.mouse_event.nobar", "sb.mouse_event.bar",
-            "sb.keypress.reaches_flow_widget.nobar", "sb.mouse_event.reaches_flow_widget.nobar", "probe.setpos", "sb.click.bar_left", "sb.click.bar_right"]
+            "sb.keypress.reaches_flow_widget.nobar", "sb.mouse_event.reaches_flow_widget.nobar", "probe.setpos", "sb.click.bar_left", "sb.click.bar_right",
+            "held.render", "held.frame_answered_by_cache", "held.same_view_again_after_rendering_moved_position",
+            "held.same_view_again_after_rendering_moved_position.bar", "held.both_focus_states",
+            "listbox.top_row_identified", "listbox.first_item_cut_at_top", "listbox.first_item_cut_at_top.is_focus",
+            "listbox.first_item_cut_at_top.is_focus.after_up", "listbox.first_item_cut_at_top.relative", "listbox.thumb_followed_to_another_position"]
+    # "listbox.held.cached_frame_after_inplace_change" is counted but no longer required: since repo fix (ScrollBar.render not
+    # cached) a ScrollBar frame never comes from the cache; the family stays so that a return of the caching is judged
     for v in need:
         if not kinds.get(v):
             chk.vacuity.append("driver." + v)
@@ -705,17 +934,22 @@ def run(chk):
                         "or a Pile inside, the Scrollable also follows the cursor: bounds, slice, bar and width clauses only",
                         "ListBox under ScrollBar: bar drawn / parts / width / rows_max against the model's own content height; the thumb position "
                         "only in exact-row mode (len(body) <= 3 * rows)",
-                        "the view is wider than the bar (w > width option)"]
+                        "the view is wider than the bar (w > width option)",
+                        "ListBox: the row on the top line of the view is identified by matching the lines shown against the items' own renderings "
+                        "(first_row); views that match at several places are counted (listbox.top_row_not_identified) and judged on the reported "
+                        "position only",
+                        "held histories keep every canvas of the history referenced; whether a frame was answered by the cache is read off the "
+                        "absence of a render() call at the wrapped widget"]
 
 
 def replay(chk, path):
     with open(path) as f:
         rp = json.load(f)["replay"]
     if rp["kind"] == "listbox":
-        tr = listbox_history(rp["items"], rp["w"], rp["h"], [tuple(o) for o in rp["ops"]], bar=tuple(rp["bar"]))
+        tr = listbox_history(rp["items"], rp["w"], rp["h"], [tuple(o) for o in rp["ops"]], bar=tuple(rp["bar"]), held=bool(rp.get("held")))
     else:
         tr = run_history(rp["kind"], rp["total"], rp["w"], rp["h"], [tuple(o) for o in rp["ops"]], bar=tuple(rp["bar"]) if rp["bar"] else None,
-                         eat=rp["eat"], lazy=bool(rp.get("lazy")), cseed=rp.get("cseed", 0))
+                         eat=rp["eat"], lazy=bool(rp.get("lazy")), cseed=rp.get("cseed", 0), held=bool(rp.get("held")))
     _validate(chk, "replay", [tr])
     chk.sample(tr["ev"][:3])
     return chk.finish()
